@@ -377,7 +377,7 @@ func checkDefs() map[string]*CheckDef {
 				}
 			},
 			LevelText: "Bounded symbolic model checking with engine goroutines: (a) sync2.Map.{Load,Store,LoadOrStore,LoadOrStoreFn,Delete} and ConcurrentSets.{Put,Exists,Remove} from two goroutines under every interleaving of their visible operations (bounded context switches): two load-or-stores never both win, every history is linearizable (checker written in the harness), and a Range running concurrently with a Delete/Store/LoadOrStore/LoadOrStoreFn hands out only mappings some caller stored, visits no key twice and misses no untouched key; (b) the real applyDefinitionRegistryPostProcessors (real tag scanner + scanners failing on solver-chosen components) and App.Close under the adversarial-join schedule with a happens-before race detector (vector clocks over spawn, WaitGroup, Mutex, sync.Map entries, atomics, channels): no two unordered conflicting accesses to one heap cell.",
-			LevelNote: "The scanners of the race run file properties like user scanners and the caller reads the definitions after the phase returned (ranging over a map is a read for the detector); the set run also compares Length/ToArray with membership after the goroutines are done (a violating interleaving found there cannot be forced natively: such a result is reported INCONCLUSIVE, not as a violation). Bounds: 2 goroutines x 1 (2) operations over 2 (1) keys, <=2-4 preemptive context switches; <=3 (5) scanned components, at most 8 live goroutines. sync.Map, sync.Mutex, sync.WaitGroup and sync/atomic are trusted models (each method one atomic step); memory model = sequential consistency + happens-before bookkeeping; preemption inside user callbacks, the stdlib log.Logger (one atomic step), viper is outside; go-kid/ioc's own syslog package IS executed from SSA in the two race runs (its per-prefix logger instances are shared by the goroutines). Counterexamples are replayed natively (go test -race / a barrier inside the LoadOrStoreFn callback). Honest note: operations, keys and schedules are explored by forking (explicit-state exploration inside the symbolic executor); the SMT solver has almost nothing to decide in these runs.",
+			LevelNote: "The scanners of the race run file properties like user scanners and the caller reads the definitions after the phase returned (ranging over a map is a read for the detector); the set run also compares Length/ToArray with membership after the goroutines are done (natively the scenario is repeated 6000 times on fresh sets with the goroutines released together, so that a violating interleaving the engine predicts can reproduce; if it does not, the result is INCONCLUSIVE, never a violation). Bounds: 2 goroutines x 1 (2) operations over 2 (1) keys, <=2-4 preemptive context switches; <=3 (5) scanned components, at most 8 live goroutines. sync.Map, sync.Mutex, sync.WaitGroup and sync/atomic are trusted models (each method one atomic step); memory model = sequential consistency + happens-before bookkeeping; preemption inside user callbacks, the stdlib log.Logger (one atomic step), viper is outside; go-kid/ioc's own syslog package IS executed from SSA in the two race runs (its per-prefix logger instances are shared by the goroutines). Counterexamples are replayed natively (go test -race / a barrier inside the LoadOrStoreFn callback). Honest note: operations, keys and schedules are explored by forking (explicit-state exploration inside the symbolic executor); the SMT solver has almost nothing to decide in these runs.",
 			Technique: techDefault + "; goroutine schedules as symbolic choices; happens-before race detection in the executor", DesignRef: "DESIGN.md §3 C20"},
 	)
 	// the integration graph run (real App.initiate + run) is cheap and serves several properties
